@@ -520,7 +520,28 @@ def structural(ctx0):
         for name, fn in methods(cls).items():
             for st in statements(fn):
                 if isinstance(st, (ast.Assign, ast.AugAssign)) and any(self_attr(t, "closing") for t in (st.targets if isinstance(st, ast.Assign) else [st.target])):
-                    ctx.check(name in ("__init__", "loseConnection"), "close/recorded", ctx.construct(QC + name, st) + " | writer", "`closing` written outside loseConnection")
+                    if name in ("__init__", "loseConnection"):
+                        ctx.ok("close/recorded", ctx.construct(QC + name, st) + " | writer")
+                        continue
+                    # elsewhere only a save / mask / restore bracket is admissible: the request to close may be hidden while a drained buffer is
+                    # held in a local, but the saved value must be put back on every path (also when an exception escapes) and the close re-tried
+                    gw = ctx.cfg(fn)
+                    saved = {t.id for x in statements(fn) if isinstance(x, ast.Assign) for t, v in assigned_pairs(x) if isinstance(t, ast.Name) and v is not None and self_attr(v, "closing")}
+                    saved = {n_ for n_ in saved if len(def_nodes(gw, n_)) == 1}
+                    restores = stmts(gw, lambda x: isinstance(x, ast.Assign) and any(self_attr(t, "closing") and isinstance(v, ast.Name) and v.id in saved for t, v in assigned_pairs(x)))
+                    here = gw.ids_of(st)
+                    if here and here[0] in restores:
+                        retry = call_nodes(gw, lambda c: call_name(c) == "self.loseConnection")
+                        keep = [e for n_ in saved for e in truth_edges(gw, lambda e, n_=n_: isinstance(e, ast.Name) and e.id == n_, False)]
+                        w = edge_path(gw, here, [gw.exit], avoid_nodes=retry, avoid_edges=keep, strict=True)
+                        ctx.check(bool(retry) and w is None, "close/recorded", ctx.construct(QC + name, st) + " | writer",
+                                  f"{name} puts the saved `closing` back but does not re-try loseConnection() when it was set: the close is never sent", witness=gw.describe(w))
+                        continue
+                    w = edge_path(gw, here, [gw.exit, gw.raise_exit], avoid_nodes=restores, exc=True, strict=True) if here else None
+                    defs_first = all(gw.must_precede(def_nodes(gw, n_), here, exc=False) is None for n_ in saved) if here else False
+                    ctx.check(bool(saved) and bool(restores) and bool(here) and w is None and defs_first, "close/recorded", ctx.construct(QC + name, st) + " | writer",
+                              f"`closing` is overwritten in {name} and not put back from a saved copy on every path (also when an exception escapes): a requested close "
+                              "is forgotten", witness=gw.describe(w))
 
     with abstain(ctx0, 's/writeSequence', SENDER):
         f = VCH(ctx.func(CH, "SSHChannel.writeSequence"))
